@@ -486,6 +486,27 @@ func emitCookie(e *emitter, p *pkg) {
 		}
 	}
 	e.boolean("cookieLoopDropsLeftover", drops)
+	// readNextClientHello: calls made on the read-timeout branch (`if netErr, ok := err.(net.Error);
+	// ok && netErr.Timeout() { … continue }`). Nothing may be written there: a silent (spoofed)
+	// peer must not receive further HelloVerifyRequests.
+	var toCalls []string
+	toFound := false
+	if fd := p.funcs["Conn.readNextClientHello"]; fd != nil && fd.Body != nil {
+		ast.Inspect(fd.Body, func(n ast.Node) bool {
+			if is, ok := n.(*ast.IfStmt); ok && strings.Contains(p.src(is.Cond), ".Timeout()") {
+				toFound = true
+				toCalls = append(toCalls, callsIn(p, is.Body)...)
+				return false
+			}
+			return true
+		})
+	}
+	if toFound {
+		e.strList("cookieWaitTimeoutCalls", toCalls)
+	} else {
+		e.strList("cookieWaitTimeoutCalls", []string{"other:no-timeout-branch"})
+		e.missing = append(e.missing, e.key("cookieWaitTimeoutCalls"))
+	}
 	// the HelloVerifyRequest that is sent: its composite literal (the cookie field must be the
 	// freshly generated cookie and nothing else)
 	hvrLit := ""
